@@ -1,4 +1,5 @@
 import logging
+import os
 from typing import Optional, Generator
 
 from dliswriter.logical_record.core.logical_record.segment_attributes import SegmentAttributes
@@ -6,6 +7,10 @@ from dliswriter.utils.internal.internal_enums import RepresentationCode as RepC
 
 
 logger = logging.getLogger(__name__)
+
+# verification hook (lr-tap): active only when WELL_ID_DLISWRITER_VERIF=1 and a sink has been registered
+_VERIF_ON = os.environ.get('WELL_ID_DLISWRITER_VERIF') == '1'
+_VERIF_LR_SINKS: list = []
 
 
 class LogicalRecordBytes:
@@ -106,6 +111,10 @@ class LogicalRecordBytes:
         Yields:
             bytes   :   Bytes of a logical record segment, including an added header.
         """
+
+        if _VERIF_ON and _VERIF_LR_SINKS:
+            for _sink in _VERIF_LR_SINKS:
+                _sink(self._is_eflr, self._lr_type_struct, self._bts)
 
         start_pos = 0  # start from the beginning of the logical record bytes
         remaining_size = self._size  # all bytes will be processed; self._size is assumed to always be >=12
